@@ -140,6 +140,10 @@ class Unit:
         if r.returncode != 0:
             raise BuildError('ll2c: ' + r.stderr[-3000:])
         m = re.search(r'emitted (\d+) functions, (\d+) globals; externals: (.*)', r.stderr)
+        md = re.search(r'external-data: (.*)', r.stderr)
+        extdata = [x for x in (md.group(1).split() if md else []) if not x.startswith('_ZTV') and not x.startswith('_ZTI')]
+        if extdata and not getattr(self, 'allow_extdata', False):
+            raise BuildError('unit %s: data defined outside the encoded sources would read as zero: %s (add the defining .cpp to libs)' % (self.name, ' '.join(extdata)))
         srcs = [wp] + [os.path.join(REPO, l) for l in self.libs]
         self.info = {'unit': self.name, 'roots': self.roots, 'functions_emitted': int(m.group(1)) if m else -1,
                      'externals_stubbed': m.group(3).split() if m else [],
